@@ -100,6 +100,19 @@ def make_views(rng, d):
     return vs
 
 
+def container_views(d):
+    """views that are equal element by element but differ in the container: a tuple is an index per axis (hashable -> memoised),
+    a list / array is an index array along the first axis (unhashable -> never memoised).  [(tag, view, hashable)]"""
+    out = [('t1', (1,), True), ('l1', [1], False)]
+    if d.ndim >= 2:
+        out += [('t2', (1, 0), True), ('l2', [1, 0], False), ('a2', np.array([1, 0]), False),
+                ('tt', ((0, 1), (1, 0)), True), ('ll', [[0, 1], [1, 0]], False), ('tl', ([0, 1], [1, 0]), False)]
+    return out
+
+
+CONTAINER_PAIRS = [('t1', 'l1'), ('t2', 'l2'), ('t2', 'a2'), ('tt', 'll'), ('tt', 'tl')]
+
+
 def leaf_factories(rng, d):
     """(kind, factory) pairs; every factory builds a new elementary state over attributes of d"""
     from glue.core import subset as S
@@ -367,6 +380,10 @@ class World:
         self.rng = rng
         self.d = make_data(rng, ndim)
         self.views = make_views(rng, self.d)
+        self.vtag = {}
+        for tg, v, hk in container_views(self.d):
+            self.vtag[tg] = len(self.views)
+            self.views.append((v, hk))
         fs = leaf_factories(rng, self.d)
         if kinds is not None:
             fs = [f for f in fs if f[0] in kinds]
@@ -398,12 +415,15 @@ def run_tree_case(R, W, spec, requests, cidx, final_check=True):
     held = []           # every array the implementation returned, with a private copy
     lm = {}
     usable_views = []
+    wanted = set([0]) | set(r[1] for r in requests)
     for vi, (v, hk) in enumerate(W.views):
+        if vi not in wanted:
+            continue        # only the views this case asks for are recorded (and re-checked at the end)
         ok = True
         for n in spec_leaves(spec) | set(r[0][1] for r in requests if r[0][0] == 'part'):
             try:
                 m = W.leaves[n].to_mask(d, v)
-                if not isinstance(m, np.ndarray) or m.dtype != bool or m.shape != view_shape_of(d, v):
+                if not isinstance(m, (np.ndarray, np.bool_)) or m.dtype != bool or m.shape != view_shape_of(d, v):
                     raise TypeError('not a boolean array of the shape of the data under the view')   # leaf semantics under views: C04
             except Exception as e:      # this part does not support this view: the view is not used in this case
                 ok = False
@@ -492,6 +512,10 @@ def run_tree_case(R, W, spec, requests, cidx, final_check=True):
             res['oracle'].append('request %d %r raised %s: %s' % (k, what, err_name(out), out))
             prev.append((None, None))
             continue
+        if not isinstance(out, (np.ndarray, np.generic)):
+            res['oracle'].append('request %d %r returned a %s' % (k, what, type(out).__name__))
+            prev.append((None, None))
+            continue
         prev.append((out, out.copy()))
         if expected is not None:
             if out.shape != view_shape_of(d, W.views[vi][0]):
@@ -513,11 +537,13 @@ def run_tree_case(R, W, spec, requests, cidx, final_check=True):
             pat.append(-1)
         else:
             pat.append(seen.setdefault(id(out), len(seen)))
+    if any(not isinstance(o, (Exception, np.ndarray)) for o, _, _, _ in trace):
+        pat = None      # numpy scalars (0-d results) are shared singletons: identity says nothing
     res['impl'] = {'masks': [None if isinstance(o, Exception) else np.asarray(o).astype(int).ravel().tolist() for o, _, _, _ in trace],
                    'pattern': pat, 'frame': frame_impl}
     res['keep'] = (trace, ids, sub)
     res['nreq'] = len(trace)
-    res['hits'] = len(pat) - len(set(pat))
+    res['hits'] = (len(pat) - len(set(pat))) if pat is not None else 0
     return res
 
 
@@ -543,7 +569,7 @@ def compare_model(res, out):
             break
         if m != impl['masks'][j]:
             bad.append('request %d: model mask %s, implementation %s' % (j, m, impl['masks'][j]))
-        elif p != impl['pattern'][j]:
+        elif impl['pattern'] is not None and p != impl['pattern'][j]:
             bad.append('request %d: identity pattern of the returned arrays differs (model %s..., implementation %s...)' % (j, p, impl['pattern'][j]))
         elif fr != impl['frame'][j]:
             bad.append('request %d: "earlier arrays unchanged" model %d implementation %d' % (j, fr, impl['frame'][j]))
@@ -776,6 +802,10 @@ def stream_exhaustive(R, cidx):
     specs += d2
     reqs = [(('node', 0), 0, FKW, 'data'), (('node', 0), 0, FPOS, 'state'), (('node', 0), 0, FKW, 'data'),
             (('node', 1), 0, FPOS, 'state'), (('node', 0), 1, FKW, 'subset'), (('node', 0), 0, FNONE, 'state')]
+    # the same object under views that differ only in the container (tuple = memoised key, list = never memoised)
+    vt = W0.vtag
+    reqs = reqs + [(('node', 0), vt['t2'], FKW, 'data'), (('node', 0), vt['l2'], FKW, 'data'),
+                   (('node', 0), vt['ll'], FPOS, 'state'), (('node', 0), vt['tt'], FPOS, 'state')]
     cases = []
     for s in specs:
         W = new_world(0, 'exhaustive', 0, ndim=2, kinds=kinds)
@@ -783,7 +813,7 @@ def stream_exhaustive(R, cidx):
     process_cases(R, cases, cidx, 'exhaustive')
     R.stream('exhaustive', cases=len(cases), exhaustive=len(d2) == full,
              bound='all %d trees of depth <= 1 over {memoised, not memoised, read-only broadcast} parts with and/or/xor/not/1-3-ary or; '
-                   '%d of the %d depth-2 trees over two parts; 6 requests each (twice through Data.get_mask, state.to_mask positional, '
+                   '%d of the %d depth-2 trees over two parts; 10 requests each (tuple / list views that agree element by element, twice through Data.get_mask, state.to_mask positional, '
                    'a sub-state, a Subset under a view, to_mask(data))' % (len(depth1), len(d2), full))
 
 
@@ -813,6 +843,34 @@ def stream_random(R, cidx):
                                    'requests': 'root via Data.get_mask, sub-state via to_mask(data, view), part 1, root again'}})
     R.stream('random', cases=done, exhaustive=False,
              bound='datasets of 1-3 dims (2..5 per axis), 1-6 parts from 23 kinds of elementary states, trees to depth 5, n-ary or with 1-6 children, 2-10 requests over 5-7 views')
+
+
+def stream_containers(R, cidx):
+    """the same state object, the same dataset, views that are equal element by element but differ in the container type"""
+    n = R.pick(260, 2500)
+    cases = []
+    for i in range(n):
+        rng = case_rng(R.seed, 'containers', i, 'tree')
+        W = new_world(R.seed, 'containers', i, ndim=rng.choice([1, 2, 2, 2, 3]))
+        if not W.leaves:
+            continue
+        spec = random_spec(rng, len(W.leaves), rng.choice([0, 1, 1, 2, 3]))
+        pairs = [p for p in CONTAINER_PAIRS if p[0] in W.vtag and p[1] in W.vtag]
+        reqs = []
+        for _ in range(rng.randint(1, 3)):
+            a, b = rng.choice(pairs)
+            order = rng.choice([(a, b), (b, a), (a, b, a), (b, a, b)])
+            tgt = ('node', 0) if rng.random() < 0.7 else ('node', rng.randrange(spec_size(spec)))
+            via = rng.choice(['data', 'state', 'subset'])
+            form = rng.choice([FKW, FPOS]) if via == 'state' else FKW
+            for tg in order:
+                reqs.append((tgt, W.vtag[tg], form, via))
+        cases.append((W, spec, reqs))
+    for k in range(0, len(cases), 400):
+        process_cases(R, cases[k:k + 400], cidx, 'containers')
+    R.stream('containers', cases=len(cases), exhaustive=False,
+             bound='random trees (depth <= 3) on 1-3-d data; 1-3 groups of 2-3 requests on ONE state object with views (1,) / [1], (1, 0) / [1, 0] / array([1, 0]), '
+                   '((0,1),(1,0)) / [[0,1],[1,0]] / ([0,1],[1,0]) in both orders, through Data.get_mask, state.to_mask, Subset.to_mask')
 
 
 # ---- edit modes on real subset groups
@@ -1145,6 +1203,7 @@ def run(R):
     stream_malformed(R, cidx)
     stream_exhaustive(R, cidx)
     stream_random(R, cidx)
+    stream_containers(R, cidx)
     stream_edit(R, cidx)
     stream_copy(R, cidx)
     clear_all_caches()
@@ -1155,11 +1214,12 @@ def replay(R, case):
     st = case.get('stream')
     out = {'case': case}
     clear_all_caches()
-    if st in ('random', 'exhaustive'):
+    if st in ('random', 'exhaustive', 'containers'):
         if st == 'exhaustive':
             W = new_world(0, 'exhaustive', 0, ndim=2, kinds=['Inequality', 'Range', 'RoiPixel'])
         else:
-            W = new_world(case['seed'], st, case['i'])
+            nd = case_rng(case['seed'], 'containers', case['i'], 'tree').choice([1, 2, 2, 2, 3]) if st == 'containers' else None
+            W = new_world(case['seed'], st, case['i'], ndim=nd)
         spec = spec_from_json(case['spec'])
         reqs = [(tuple(t), vi, form, via) for t, vi, form, via in case['requests']]
         try:
